@@ -490,7 +490,7 @@ impl Prop for C09 {
         ]
     }
     fn bound(&self, tier: Tier) -> String {
-        format!("{} (N,i) pairs; field shapes <= 2 deviations; all boundary ints; bytes 0..100", ctor_cases(tier).len())
+        format!("{} (N,i) pairs; field shapes <= 2 deviations; all boundary ints; bytes 0..100 x 5 contents", ctor_cases(tier).len())
     }
 
     fn enumerate(&self, tier: Tier, sink: &mut Sink) {
@@ -523,13 +523,34 @@ impl Prop for C09 {
             }
             sink.case(|| json!({"kind": "int-param-bare", "pos": Pos::Datum, "value": V::List(vec![V::ParamInt(n)])}));
         }
+        // byte strings of every length with five contents: a ramp, all zero, zeros up to a last 0xff, all 0xff, a zero
+        // byte before the ramp (bytes are not numbers: leading and trailing zeros are content)
         for len in 0..=100usize {
-            let b: Vec<u8> = (0..len).map(|i| (i * 7 + 1) as u8).collect();
-            for pos in [Pos::Datum, Pos::InputRedeemer] {
-                sink.case(|| json!({"kind": "bytes-param", "pos": pos, "value": V::Rec(vec![V::ParamBytes(b.clone())])}));
-            }
-            if len > 0 {
-                sink.case(|| json!({"kind": "bytes-literal", "pos": Pos::Datum, "value": V::Rec(vec![V::Bytes(b.clone())])}));
+            for pattern in 0..5usize {
+                if len == 0 && pattern > 0 {
+                    continue;
+                }
+                let b: Vec<u8> = (0..len)
+                    .map(|i| match pattern {
+                        0 => (i * 7 + 1) as u8,
+                        1 => 0,
+                        2 => if i + 1 == len { 0xff } else { 0 },
+                        3 => 0xff,
+                        _ => if i == 0 { 0 } else { (i * 7 + 1) as u8 },
+                    })
+                    .collect();
+                for pos in [Pos::Datum, Pos::InputRedeemer] {
+                    sink.case(|| json!({"kind": "bytes-param", "pos": pos, "value": V::Rec(vec![V::ParamBytes(b.clone())])}));
+                }
+                if len > 0 {
+                    sink.case(|| json!({"kind": "bytes-literal", "pos": Pos::Datum, "value": V::Rec(vec![V::Bytes(b.clone())])}));
+                }
+                if len <= 3 || len == 64 || len == 65 {
+                    // as list item and as map key / value (the second encoder)
+                    for pos in [Pos::Datum, Pos::MintRedeemer] {
+                        sink.case(|| json!({"kind": "bytes-nested", "pos": pos, "value": V::Rec(vec![V::List(vec![V::Bytes(b.clone()), V::ParamBytes(b.clone())]), V::Map(vec![(V::Bytes(b.clone()), V::ParamBytes(b.clone()))])])}));
+                    }
+                }
             }
         }
     }
